@@ -173,6 +173,15 @@ func c28Insts(full bool) []Inst {
 			out = append(out, Inst{Pkg: "client", Fn: "VH_C28_return", Args: []int64{kind, 1, 1, t}, LoopBound: 2000})
 		}
 	}
+	// Sleep from the awake state (kind 9): silent gateway, DISCONNECT, and a few unsolicited packets
+	out = append(out, Inst{Pkg: "client", Fn: "VH_C28_return", Args: []int64{9, 1, 0, 0}, LoopBound: 2000}, Inst{Pkg: "client", Fn: "VH_C28_return", Args: []int64{9, 1, 2, 0}, LoopBound: 2000})
+	k9 := []int64{0x17, 0x05}
+	if full {
+		k9 = []int64{0x17, 0x05, 0x16, 0x0B, 0x0D, 0x13, 0x0A}
+	}
+	for _, t := range k9 {
+		out = append(out, Inst{Pkg: "client", Fn: "VH_C28_return", Args: []int64{9, 1, 1, t}, LoopBound: 2000})
+	}
 	return out
 }
 
@@ -183,7 +192,7 @@ func init() {
 		Asserts: []string{"C28.call_returns_within_bound", "C28.close_returns", "C28.no_goroutine_left"},
 		Reach:   []string{"C28.waited"},
 		Bounds: map[string]string{
-			"calls":     "Connect, Register, Subscribe, Publish QoS 1 and 2, Unsubscribe, Ping, Sleep(2 s), Disconnect - one call per instance, on the real client with its real receive loop; RetryCount 0..1 (thorough 0..2); RetryDelay and ConnectTimeout symbolic in (0, 1 s); KeepAlive 0 (the keep-alive loop is C33's subject)",
+			"calls":     "Connect, Register, Subscribe, Publish QoS 1 and 2, Unsubscribe, Ping, Sleep(2 s), Disconnect, Sleep(2 s) again after a completed sleep cycle (from the awake state, the gateway misbehaving at a symbolic instant of the sleep) - one call per instance, on the real client with its real receive loop; RetryCount 0..1 (thorough 0..2); RetryDelay and ConnectTimeout symbolic in (0, 1 s); KeepAlive 0 (the keep-alive loop is C33's subject)",
 			"gateway":   "silent forever; one unsolicited packet of any type with a symbolic body (min..min+2 bytes), then silent; DISCONNECT",
 			"bound":     "ConnectTimeout x (RetryCount+1) for Connect; RetryDelay x (RetryCount+1) otherwise; plus the sleep duration and the library's fixed one-minute PINGRESP wait for Sleep; + 50 ms",
 			"shutdown":  "Close() afterwards; after all timers have fired no task spawned by the client is alive",
@@ -200,6 +209,7 @@ func init() {
 			for a := int64(0); a <= 1; a++ {
 				out = append(out, Inst{Pkg: "client", Fn: "VH_C33_active", Args: []int64{a}}, Inst{Pkg: "client", Fn: "VH_C33_sleep", Args: []int64{a}}, Inst{Pkg: "client", Fn: "VH_C33_disconnect", Args: []int64{a}})
 			}
+			out = append(out, Inst{Pkg: "client", Fn: "VH_C33_sleep", Args: []int64{2}})
 			return out
 		},
 		Asserts: []string{"C33.pings_while_active", "C33.ping_at_least_every_keepalive", "C33.sleep_takes_effect", "C33.no_keepalive_ping_while_asleep", "C33.sleep_not_failed_by_keepalive", "C33.disconnect_not_failed_by_keepalive", "C33.no_keepalive_ping_after_disconnect"},
